@@ -293,6 +293,7 @@ def _scalarise_records(model, rel, fn):
             parents[id(ch)] = n
     cands = {}
     bad = set()
+    keep_var = set()
     for n in ast.walk(fn):
         if isinstance(n, ast.Name):
             par = parents.get(id(n))
@@ -300,12 +301,20 @@ def _scalarise_records(model, rel, fn):
                 ok = isinstance(par, (ast.Assign, ast.AnnAssign)) and (par.targets == [n] if isinstance(par, ast.Assign) else par.target is n) and isinstance(par.value, ast.Call) \
                     and isinstance(par.value.func, ast.Name) and par.value.func.id in recs and not any(isinstance(a, ast.Starred) for a in par.value.args) \
                     and all(k.arg is not None for k in par.value.keywords)
+                is_none = isinstance(par, (ast.Assign, ast.AnnAssign)) and (par.targets == [n] if isinstance(par, ast.Assign) else par.target is n) \
+                    and isinstance(par.value, ast.Constant) and par.value.value is None
                 if ok:
                     cands.setdefault(n.id, set()).add(par.value.func.id)
+                elif is_none or (isinstance(par, ast.AnnAssign) and par.value is None):
+                    pass                    # `r = None` / a bare annotation: "no record"; the variable itself is kept for the None tests
                 else:
                     bad.add(n.id)
             elif isinstance(n.ctx, ast.Load):
-                if not (isinstance(par, ast.Attribute) and par.value is n and isinstance(par.ctx, ast.Load)):
+                none_test = isinstance(par, ast.Compare) and len(par.ops) == 1 and isinstance(par.ops[0], (ast.Is, ast.IsNot)) and par.left is n \
+                    and isinstance(par.comparators[0], ast.Constant) and par.comparators[0].value is None
+                if none_test:
+                    keep_var.add(n.id)
+                elif not (isinstance(par, ast.Attribute) and par.value is n and isinstance(par.ctx, ast.Load)):
                     bad.add(n.id)
             else:
                 bad.add(n.id)
@@ -338,17 +347,21 @@ def _scalarise_records(model, rel, fn):
                 if v_ is None:
                     return None
                 out.append(_loc(ast.Assign(targets=[ast.Name(id=f"{tgt.id}__{f_}", ctx=ast.Store())], value=self.visit(v_)), st))
+            if tgt.id in keep_var:
+                # the record variable survives only as the "is there a record" marker of its None tests
+                out.append(_loc(ast.Assign(targets=[ast.Name(id=tgt.id, ctx=ast.Store())],
+                                           value=ast.Call(func=call.func, args=[ast.Name(id=f"{tgt.id}__{f_}", ctx=ast.Load()) for f_ in fields], keywords=[])), st))
             return out
 
         def visit_Assign(self, n):
-            if len(n.targets) == 1 and isinstance(n.targets[0], ast.Name) and n.targets[0].id in todo:
+            if len(n.targets) == 1 and isinstance(n.targets[0], ast.Name) and n.targets[0].id in todo and isinstance(n.value, ast.Call):
                 r = self._split(n, n.targets[0], n.value)
                 if r is not None:
                     return r
             return self.generic_visit(n)
 
         def visit_AnnAssign(self, n):
-            if isinstance(n.target, ast.Name) and n.target.id in todo and n.value is not None:
+            if isinstance(n.target, ast.Name) and n.target.id in todo and isinstance(n.value, ast.Call):
                 r = self._split(n, n.target, n.value)
                 if r is not None:
                     return r
@@ -618,6 +631,24 @@ class Inliner:
         if isinstance(f, ast.Attribute):
             name = f.attr
             base = ast.unparse(f.value)
+            # a class that did not exist in the baseline (a record/helper object extracted from a function): its class/static methods
+            # called through the class, and its methods called on a local that only ever holds its instances
+            k_ = self._artefact_classes().get(base) if isinstance(f.value, ast.Name) else None
+            via_local = False
+            if k_ is None and isinstance(f.value, ast.Name) and f.value.id in getattr(self, "rec_locals", {}):
+                k_ = self._artefact_classes().get(self.rec_locals[f.value.id])
+                via_local = True
+            if k_ is not None:
+                for s in k_.body:
+                    if isinstance(s, ast.FunctionDef) and s.name == name:
+                        kind = "static" if any(ast.unparse(d) == "staticmethod" for d in s.decorator_list) else (
+                            "class" if any(ast.unparse(d) == "classmethod" for d in s.decorator_list) else "method")
+                        if kind == "method" and not via_local:
+                            return None
+                        s._artefact_cls = True
+                        s._defrel_cls = k_
+                        return s, (f.value if kind != "class" or not via_local else ast.Name(id=k_.name, ctx=ast.Load())), kind
+                return None
             if self.cls is not None and base in ("self", "cls", "type(self)", "__class__", self.cls.name, "new"):
                 for s in self.cls.body:
                     if isinstance(s, ast.FunctionDef) and s.name == name:
@@ -625,6 +656,61 @@ class Inliner:
                             "class" if any(ast.unparse(d) == "classmethod" for d in s.decorator_list) else "method")
                         return s, f.value, kind
         return _why(412)
+
+    def _artefact_classes(self):
+        f = self.m.files[self.rel]
+        if not hasattr(f, "_artefact_classes"):
+            f._artefact_classes = {c.name: c for c in f.clean_tree.body if isinstance(c, ast.ClassDef) and c.name not in baseline().get(self.rel, set())}
+        return f._artefact_classes
+
+    def _record_locals(self, fn):
+        """{local: artefact class} for locals of fn whose every binding is `K(...)`, `K.<classmethod returning cls(...)>(...)` or None."""
+        ks = self._artefact_classes()
+        if not ks:
+            return {}
+
+        def makes(v):
+            if isinstance(v, ast.Constant) and v.value is None:
+                return "NONE"
+            if isinstance(v, ast.Call) and isinstance(v.func, ast.Name) and v.func.id in ks:
+                return v.func.id
+            if isinstance(v, ast.Call) and isinstance(v.func, ast.Attribute) and isinstance(v.func.value, ast.Name) and v.func.value.id in ks:
+                k = ks[v.func.value.id]
+                mth = next((x for x in k.body if isinstance(x, ast.FunctionDef) and x.name == v.func.attr), None)
+                if mth is not None and any(ast.unparse(d) == "classmethod" for d in mth.decorator_list):
+                    rets = [r for r in ast.walk(mth) if isinstance(r, ast.Return)]
+                    c0 = mth.args.args[0].arg if mth.args.args else "cls"
+                    if rets and all(isinstance(r.value, ast.Call) and isinstance(r.value.func, ast.Name) and r.value.func.id in (c0, k.name) for r in rets):
+                        return k.name
+            return None
+        kinds = {}
+        for n in ast.walk(fn):
+            tgt = val = None
+            if isinstance(n, ast.Assign) and len(n.targets) == 1 and isinstance(n.targets[0], ast.Name):
+                tgt, val = n.targets[0].id, n.value
+            elif isinstance(n, ast.AnnAssign) and isinstance(n.target, ast.Name) and n.value is not None:
+                tgt, val = n.target.id, n.value
+            elif isinstance(n, ast.Name) and isinstance(n.ctx, ast.Store):
+                kinds.setdefault(n.id, set())
+                continue
+            if tgt is not None:
+                kinds.setdefault(tgt, set()).add(makes(val))
+        out = {}
+        stores = {}
+        for n in ast.walk(fn):
+            if isinstance(n, ast.Name) and isinstance(n.ctx, ast.Store):
+                stores[n.id] = stores.get(n.id, 0) + 1
+        plain = {}
+        for n in ast.walk(fn):
+            if isinstance(n, ast.Assign) and len(n.targets) == 1 and isinstance(n.targets[0], ast.Name):
+                plain[n.targets[0].id] = plain.get(n.targets[0].id, 0) + 1
+            elif isinstance(n, ast.AnnAssign) and isinstance(n.target, ast.Name) and n.value is not None:
+                plain[n.target.id] = plain.get(n.target.id, 0) + 1
+        for v, ks_ in kinds.items():
+            real = ks_ - {"NONE"}
+            if len(real) == 1 and None not in ks_ and stores.get(v, 0) == plain.get(v, 0):
+                out[v] = next(iter(real))
+        return out
 
     def _bind(self, callee, call, recv, kind, expr_mode=False):
         """-> (prefix assignments, rename mapping) or None if the call cannot be bound simply."""
@@ -767,6 +853,7 @@ class Inliner:
         self.closures = closures
         if getattr(self, "root", None) is None:
             self.root = fn
+            self.rec_locals = self._record_locals(fn)
         # local aliases of methods: `helper = self._helper`, bound once
         self.aliases = {}
         cnt = {}
@@ -894,7 +981,7 @@ class Inliner:
         if r is None:
             return _why(604)
         callee, recv, kind = r
-        if not is_artefact(getattr(callee, "_defrel", self.rel), callee, nested=(kind == "closure")):
+        if not getattr(callee, "_artefact_cls", False) and not is_artefact(getattr(callee, "_defrel", self.rel), callee, nested=(kind == "closure")):
             return _why(607)
         if any(ast.unparse(d).split(".")[-1] not in ("staticmethod", "classmethod", "no_type_check", "override", "final") for d in callee.decorator_list):
             return _why(609)
